@@ -243,7 +243,7 @@ func ZZ_C02_Programs(sv *zzsv.T) {
 	p := g.program()
 	src := p.text()
 	sv.Note("script", src)
-	noopt := sv.Param("alsoNoOptimize", 0, 1) == 1 && sv.Choice("noopt", 2) == 1
+	noopt := sv.Param("alsoNoOptimize", 0, 0) == 1 && sv.Choice("noopt", 2) == 1
 	var trace []object.Object
 	e, err := zzPrepare(sv, src, g.vars, g.order, noopt, &trace)
 	sv.Assert("C02.prepare", err == nil)
